@@ -285,6 +285,17 @@ func (ctx *RenderContext) GetVariable(name string) (interface{}, error) {
 	return nil, nil
 }
 
+// currentTemplateName returns the name of the template this context is rendering,
+// the base for relative template names ("./x", "../x") written in it.
+func (ctx *RenderContext) currentTemplateName() string {
+	for c := ctx; c != nil; c = c.parent {
+		if c.lastLoadedTemplate != nil && c.lastLoadedTemplate.name != "" {
+			return c.lastLoadedTemplate.name
+		}
+	}
+	return ""
+}
+
 // visibleVariables returns every variable visible from this context: its own and
 // those of its ancestors, the nearest definition winning (the lookup order of
 // GetVariable). A context without a parent returns its own map.
